@@ -677,3 +677,105 @@ Proof.
     + eexists. eexists. eexists. split; [vm_compute; right; right; left; reflexivity|reflexivity].
     + eexists. eexists. vm_compute. left. reflexivity.
 Qed.
+
+(* ---------------------------------------------------------------- *)
+(* C14_router_persistent: a table entry is retained state.  In the model every field of a router
+   record is a value (an owned copy of the bytes it was decoded from); nothing refers to the packet
+   buffer.  Hence no later event other than a processed RA from the same source can change it: *)
+
+Lemma rt_find_set_ne l ip r k : bytes_eqb ip k = false -> rt_find (rt_set l ip r) k = rt_find l k.
+Proof.
+  intros H. induction l as [|[k0 r0] t IH]; cbn [rt_set rt_find].
+  - rewrite H. reflexivity.
+  - destruct (bytes_eqb k0 ip) eqn:E; cbn [rt_find].
+    + apply bytes_eqb_eq in E. subst k0. rewrite H. reflexivity.
+    + rewrite IH. reflexivity.
+Qed.
+
+Definition not_ra_from (k : bytes) (e : event) : Prop :=
+  match e with RxRA s _ _ _ => bytes_eqb s k = false | _ => True end.
+
+Lemma step_keeps_router c st e k : not_ra_from k e ->
+  rt_find (routers (fst (step c st e))) k = rt_find (routers st) k.
+Proof.
+  intros H. destruct e as [a|a| |i|src eth p hk|q]; cbn [step].
+  - unfold start_hunt. destruct (is4 (a_ip a)); [reflexivity|].
+    destruct (is6 (a_ip a) && negb (is_llu (a_ip a))); [reflexivity|].
+    destruct (al_has (hunt st) (a_mac a)); reflexivity.
+  - unfold stop_hunt. destruct (ip_valid (a_ip a) && negb (is_llu (a_ip a))); reflexivity.
+  - unfold close. destruct (closed st); reflexivity.
+  - unfold wake. destruct (nth_error (loops st) i) as [l|]; [|reflexivity].
+    destruct (negb (l_alive l)); [reflexivity|].
+    destruct (negb (al_has (hunt st) (a_mac (l_dst l))) || closed st); [reflexivity|].
+    destruct (defrouter st); reflexivity.
+  - cbn [not_ra_from] in H. unfold rx_ra. destruct (blen p <? 16); [reflexivity|].
+    destruct (negb (Z.rem (repeat_ st + 1) 4 =? 0)%Z); [reflexivity|].
+    destruct (negb hk); [reflexivity|].
+    destruct (ra_options p); try reflexivity.
+    destruct (rt_find (routers st) src); cbn [fst routers]; apply rt_find_set_ne; exact H.
+  - reflexivity.
+Qed.
+
+Lemma run_keeps_router c k : forall evs st, Forall (not_ra_from k) evs ->
+  rt_find (routers (snd (run c st evs))) k = rt_find (routers st) k.
+Proof.
+  induction evs as [|e r IH]; intros st H; [reflexivity|]. inversion H as [|? ? He Hr]; subst.
+  cbn [run]. destruct (step c st e) as [st' o] eqn:Hs. destruct (run c st' r) as [tr fin] eqn:Hrun.
+  cbn [snd]. replace fin with (snd (run c st' r)) by (rewrite Hrun; reflexivity). rewrite IH by exact Hr.
+  replace st' with (fst (step c st e)) by (rewrite Hs; reflexivity). apply step_keeps_router. exact He.
+Qed.
+
+(* what "learned exactly" means for one entry, as one predicate *)
+Definition entry_exact (r : router) (d : ra_info) : Prop :=
+  hdr_exact r d /\ opts_exact r d /\
+  (known_ri_multiple d = false -> routes_exact r d) /\
+  (known_rdnss_multiple d = false -> rdnss_exact r d) /\
+  (known_dnssl_multiple d = false -> dnssl_exact r d).
+
+(* after ANY history evs1, a processed RA p from src, then ANY later history evs2 without another RA
+   from src (StartHunt/StopHunt/Close, loop passes, RAs of other routers, any other ICMPv6 message):
+   the entry of src still records exactly the decoding of p *)
+Theorem router_persistent c rep evs1 src eth p d evs2 :
+  bytes_ok p -> ra_decode p = Some d ->
+  let st := snd (run c (init rep) evs1) in
+  processed_ra st -> Forall (not_ra_from src) evs2 ->
+  let fin := snd (run c (fst (step c st (RxRA src eth p true))) evs2) in
+  exists r, rt_find (routers fin) src = Some r /\ entry_exact r d.
+Proof.
+  intros Hok Hd st Hp H2 fin.
+  destruct (router_exact st src eth p d Hok Hd Hp) as [_ [r [Hf [H1 [H3 [H4 [H5 [H6 _]]]]]]]].
+  exists r. split; [|split; [exact H1|split; [exact H3|split; [exact H4|split; [exact H5|exact H6]]]]].
+  unfold fin. rewrite run_keeps_router by exact H2. exact Hf.
+Qed.
+
+Example router_persistent_nonvacuous :
+  Forall (not_ra_from ex_src)
+    [StartHunt (mkAddr ex_mac []); Wake 0; RxRA [254;128;0;0;0;0;0;0;0;0;0;0;0;1;0;18] [0;119;119;119;119;119] wit_rdnss true;
+     RxOther [128;0;0;0]; StopHunt (mkAddr ex_mac []); Close].
+Proof. repeat constructor. Qed.
+
+(* ---------------------------------------------------------------- *)
+(* non-vacuity of the lenient-decoder theorem (Proofs/Icmp6SpoofRA.v ra_options_lenient):
+   wit_mal carries a malformed MTU (length 2), a route option with the reserved preference and an
+   RDNSS option of length 2 between a source LLA and a prefix: the three are skipped;
+   wit_rej carries a source LLA option of length 2: the advertisement is rejected *)
+Definition wit_mal : bytes := hexb "860000004000070800000000000000000101aabbccddeeff0502000000000000000000000000000018023010000002bc000000000000000019020000000000090000000000000000030440c000015180000038400000000020010db8000100020000000000000000".
+Definition wit_rej : bytes := hexb "86000000400007080000000000000000030440c000015180000038400000000020010db800010002000000000000000001020000000000000000000000000000".
+
+Example lenient_nonvacuous :
+  (exists tl d, split_tlv (List.length (skipn 16 wit_mal)) (skipn 16 wit_mal) = Some tl /\ dnssl_wf tl /\
+     ra_decode wit_mal = None /\ ra_decode_lenient wit_mal = Some d /\ List.length (ra_opts d) = 2%nat /\
+     ra_options wit_mal = Ok (fold_left apply1 (ra_opts d) opts_zero)) /\
+  (exists tl, split_tlv (List.length (skipn 16 wit_rej)) (skipn 16 wit_rej) = Some tl /\ dnssl_wf tl /\
+     ra_decode_lenient wit_rej = None /\ ra_options wit_rej = Err EOther).
+Proof.
+  split.
+  - destruct (split_tlv (List.length (skipn 16 wit_mal)) (skipn 16 wit_mal)) as [tl|] eqn:E; [|vm_compute in E; discriminate].
+    destruct (ra_decode_lenient wit_mal) as [d|] eqn:El; [|vm_compute in El; discriminate].
+    exists tl, d. split; [reflexivity|]. vm_compute in E. inversion E; subst tl. clear E.
+    split; [repeat constructor; intros; discriminate|]. split; [vm_compute; reflexivity|]. split; [reflexivity|].
+    vm_compute in El. inversion El; subst d. split; [reflexivity|]. vm_compute. reflexivity.
+  - destruct (split_tlv (List.length (skipn 16 wit_rej)) (skipn 16 wit_rej)) as [tl|] eqn:E; [|vm_compute in E; discriminate].
+    exists tl. split; [reflexivity|]. vm_compute in E. inversion E; subst tl. clear E.
+    split; [repeat constructor; intros; discriminate|]. split; vm_compute; reflexivity.
+Qed.
